@@ -1,4 +1,25 @@
-(** Doubly linked list: both handles, histories, and the theorems exported to Properties/C04.v. *)
+(** Doubly linked list: both handles, histories, and the theorems exported to Properties/C04.v.
+
+    Map of the list engine's proofs (all closed under the global context, no axioms):
+      ListHeap.v     heap / segment ([dseg]) / ledger toolkit, representation [lrep], [cl_abs], [cl_back] = rev
+      ListProofs1.v  add_first, add_last, link_behind (fresh node), add_at, unlinkn, get_node_at (both directions),
+                     read-only walks, unlinkn_all loop, filter_mut loop
+      ListProofs2.v  link_all_externally (+ cleanup on refusal), joining segments, attach_between / splice_links,
+                     add_all_to_empty, add_all_at, add_all, splice_at (+ their empty-source / out-of-range cases)
+      ListProofs3.v  swap_adjacent, swap, reverse
+      ListProofs4.v  world invariant [winv], [step_refines_HA] (all 26 operations of [lop])
+      ListProofs5.v  either handle, histories from the constructor, [list_wf], mirror, bulk            (C04)
+      ListProofs6.v  remove_all_cb / destroy / destroy_cb (C06); sublist, copy_shallow, copy_deep, filter: contents,
+                     result well formed, own allocator family, refusal releases the partial copy   (C15, C14, C08)
+      ListProofs7.v  link_after (fresh node); forward iterator: next / fresh-complete / index / replace / remove / add;
+                     descending iterator likewise (yields the reverse); zip iterator: next, lockstep, fresh-complete (C07)
+      ListProofs8.v  cc_list_sort under the sorter hypothesis (C18); [step_frame]: a status other than CC_OK leaves both
+                     lists and the live ledger untouched (C16, C08); lemmas about the generated guards (C16)
+      ListProofs9.v  link_behind moving a node, the merge loop, split, merge sort = stable insertion sort:
+                     sort_in_place is sorted + permutation + stable + well formed                          (C18)
+    Not proved, tied to the C code by the correspondence runs only: cc_list_reduce; zip_iter_add / _remove / _replace /
+    _index (their single-list counterparts are proved); iterator calls outside the contract (add without a yielded
+    element, two structural changes per yield) where the model predicts the fault or the stale tail that the code shows. *)
 From Coq Require Import Permutation.
 From CC Require Import Base.Prelude Base.ListMem Base.Alloc Base.AllocProofs.
 From CC Require Import Generated.Status Generated.Guards List_.ListModel List_.ListHeap List_.ListProofs1 List_.ListProofs2
